@@ -147,6 +147,29 @@ def _rules(ck, prog, cfg):
              "KeyDigest::new reads only %s of a ReplicatedValue (payload only through %s): hash fields, counters, sets, vector clocks and "
              "the expiry are invisible to the digest, so states that differ there are reported 'in sync'"
              % (sorted(read), sorted(calls_on_value)), kd.where(), detail="reads crdt, expiry_ms, timestamp")
+    # what the digest does cover today must stay covered (the open finding above must not hide a further loss): the value hasher is fed
+    # the whole stamp (time and replica id) and the bytes of the LWW payload, and value_hash is that hasher's finish()
+    fed = {}
+    for b, t in kd.calls():
+        if is_callee(t, r"std::hash::Hash>::hash(::<.*>)?$") and len(t["args"]) >= 2:
+            hs = src_of_operand(kd, t["args"][1], through_calls=TRANSPARENT)
+            inp = src_of_operand(kd, t["args"][0], through_calls=TRANSPARENT + (r"SDS::as_bytes$", r"::as_bytes$", r"Deref>::deref$"))
+            hn = kd.name_of_local(hs.local) if hs.local is not None else None
+            hn = hn or hs.path()
+            if inp.kind == "path":
+                fed.setdefault(hn, set()).add(".".join(f for f in inp.fields if not f.startswith("<")))
+            elif inp.kind == "call":
+                fed.setdefault(hn, set()).add("call:" + callee(inp.term).rsplit("::", 1)[-1] + "".join("." + f for f in inp.fields if not f.startswith("<")))
+    vh = None
+    for name, items in fed.items():
+        if any(x.startswith("timestamp") for x in items):
+            vh = name
+    items = fed.get(vh, set())
+    ck.extra.setdefault("value_hasher_inputs", sorted(items))
+    ck.check(vh is not None and any(x.startswith("timestamp.time") for x in items) and any(x.startswith("timestamp.replica_id") for x in items) and
+             any(x.startswith("call:get") for x in items), "R18.2", "KeyDigest::new:keeps-stamp-and-payload" + _tag(cfg),
+             "the value hash no longer covers the full stamp (time, replica id) and the LWW payload bytes (fed: %s): two values that differ "
+             "only there get equal digests and are reported 'in sync'" % sorted(items), kd.where(), detail="fed: %s" % sorted(items))
     # ---- R18.3
     sync = prog.one("simulator::multi_node::MultiNodeSimulation::run_anti_entropy_sync")
     sel = [(b, t) for b, t in sync.calls() if is_callee(t, r"AntiEntropyManager::get_keys_in_buckets$")]
